@@ -3,6 +3,7 @@ package seqio
 // C01 — GenBank records written by gts read back identically (closure + fidelity).
 
 import (
+	"bytes"
 	"time"
 
 	"github.com/go-gts/gts"
@@ -58,21 +59,34 @@ func vKeywords(shape int) []string {
 	return ks
 }
 
+// (residue count, table kind) per shard; the first six are the quick tier
+var vC01Shapes = [][2]int{{4, 0}, {0, 0}, {12, 1}, {61, 1}, {4, 3}, {4, 2}, {12, 0}, {61, 0}, {4, 1}, {0, 1}, {12, 2}, {12, 3}}
+
 func vC01(shape int) {
-	n := []int{4, 0, 12, 61}[shape%4]
+	n, kind := vC01Shapes[shape][0], vC01Shapes[shape][1]
 	data := vBytesIn("r", n, 33, 126)
 	var ff gts.FeatureSlice
-	switch shape / 4 {
+	switch kind {
 	case 0: // no features at all
 	case 1:
 		p := gts.Props{}
 		p.Add("mol_type", vWordBytes("q0", 2))
 		ff = ff.Insert(gts.Feature{Key: "source", Loc: gts.Range(0, gts.Max(n, 1)), Props: p})
+	case 3:
+		// a feature key over the INSDC key alphabet (letters, digits, _ - ' *): 5'UTR, D-loop, -10_signal ...
+		kb := vBytes("key", 2)
+		for _, c := range kb {
+			vAssume(vOr(vOr(vAnd('0' <= c, c <= '9'), vAnd('a' <= c, c <= 'z')), vOr(vOr(vAnd('A' <= c, c <= 'Z'), c == '_'), vOr(c == '-', vOr(c == '\'', c == '*')))))
+		}
+		ff = ff.Insert(gts.Feature{Key: "gene", Loc: gts.Range(0, 2), Props: gts.Props{}})
+		ff = ff.Insert(gts.Feature{Key: string(kb) + "R", Loc: gts.Range(1, 3), Props: gts.Props{}})
+		ff = ff.Insert(gts.Feature{Key: "gene", Loc: gts.Range(2, 4), Props: gts.Props{}})
 	default:
 		p := gts.Props{}
 		p.Add("gene", vWordBytes("q0", 1))     // quoted
 		p.Add("codon_start", "1")               // literal
 		p.Add("pseudo", "")                     // toggle
+		p.Add("translation", "MK")              // not the last qualifier: the order of qualifiers is part of the table
 		p.Add("note", string(vBytesIn("q1", 2, 'a', 'c'))+"\n"+vWordBytes("q2", 1)) // multi-line quoted
 		s := vIntIn("f.s", 0, 8)
 		e := vIntIn("f.e", 1, 9)
@@ -90,7 +104,7 @@ func vC01(shape int) {
 			Keywords: vKeywords(shape),
 			Source:   Organism{vWordBytes("sp", 1), vWordBytes("org", 1), []string{vWordBytes("tax", 1), "x"}},
 			References: []Reference{{Number: 1, Info: "(bases 1 to 4)", Authors: vWordBytes("au", 1), Title: vWordBytes("ti", 1)}},
-			Comments:   []string{vWordBytes("cm", 2)},
+			Comments:   []string{vWordBytes("cm", 2), vWordBytes("cn", 1) + "\n\n" + vWordBytes("co", 1)}, // the second one has a paragraph break
 		},
 		Table:  ff,
 		Origin: NewOrigin(data),
@@ -128,6 +142,28 @@ func vC01(shape int) {
 			vAssert("same-keywords", f.Keywords[i] == g.Keywords[i])
 		}
 	}
+	for i := range f.Comments {
+		if i < len(g.Comments) {
+			vAssert("same-comments", f.Comments[i] == g.Comments[i])
+		}
+	}
+	for i := range f.References {
+		if i < len(g.References) {
+			vAssert("same-references", vAnd(vAnd(f.References[i].Number == g.References[i].Number, f.References[i].Info == g.References[i].Info), vAnd(f.References[i].Authors == g.References[i].Authors, f.References[i].Title == g.References[i].Title)))
+		}
+	}
+	if len(g.DBLink) == len(f.DBLink) {
+		for i := range f.DBLink {
+			vAssert("same-dblink", vAnd(f.DBLink[i].Key == g.DBLink[i].Key, f.DBLink[i].Value == g.DBLink[i].Value))
+		}
+	}
+	if len(g.Source.Taxon) == len(f.Source.Taxon) {
+		for i := range f.Source.Taxon {
+			vAssert("same-taxonomy", f.Source.Taxon[i] == g.Source.Taxon[i])
+		}
+	} else {
+		vAssert("same-taxonomy", false)
+	}
 	vAssert("same-counts", vAnd(vAnd(len(g.Keywords) == len(f.Keywords), len(g.References) == len(f.References)), vAnd(len(g.Comments) == len(f.Comments), len(g.DBLink) == len(f.DBLink))))
 	var text2 string
 	p2 := vPanics(func() { text2 = back.String() })
@@ -139,8 +175,8 @@ func vC01(shape int) {
 	vObserve("len", len(text))
 }
 
-//verif:harness prop=C01 quick=6 thorough=12 merge=concrete timeout=1500
-//verif:bounds bounded template records: residues 4 | 0 (CONTIG-only) | 12 | 61 symbolic printable bytes; feature table empty | source only | CDS (symbolic partial range on either strand; quoted, literal, toggle and multi-line qualifiers) + gene join; header strings of 1..2 symbolic letters each (definition bytes over '.'..'z', so it may end in a period); keywords: one short, or eight long ones that wrap; symbolic valid calendar date (year 1000..9999); topology by choice
+//verif:harness prop=C01 quick=6 thorough=12 merge=concrete timeout=1500 steps=200000000
+//verif:bounds bounded template records: residues 4 | 0 (CONTIG-only) | 12 | 61 symbolic printable bytes; feature table empty | source only | CDS (symbolic partial range on either strand; quoted, literal, toggle and multi-line qualifiers, /translation followed by another qualifier) + gene join | a feature between two genes whose key starts with two symbolic bytes of the INSDC key alphabet (letters, digits, _ - ' *); header strings of 1..2 symbolic letters each (definition bytes over '.'..'z', so it may end in a period); keywords: one short, or eight long ones that wrap; two comments, one with a blank line inside; reference, dblink and taxonomy compared field by field; symbolic valid calendar date (year 1000..9999); topology by choice
 //verif:assume time.Time.Format("02-Jan-2006") is modelled field by field for a valid date
 func VH_C01_roundtrip() {
 	ns := 6 + 6*vTier()
@@ -148,3 +184,177 @@ func VH_C01_roundtrip() {
 }
 
 func time_Month(m int) timeMonth { return timeMonth(m) }
+
+// ---- records reached by edit operations, and multi-record framing ---------------------------
+
+// vPipeLoc: one feature location with symbolic coordinates on a sequence of length L.
+func vPipeLoc(name string, L int, shape int) gts.Location {
+	s := vIntIn(name+".s", 0, L-1)
+	e := vIntIn(name+".e", 1, L)
+	vAssume(s < e)
+	switch shape {
+	case 0:
+		return gts.PartialRange(s, e, gts.Partial{Partial5: vBool(name + ".p5"), Partial3: vBool(name + ".p3")})
+	case 1:
+		return gts.Range(s, e).Complement()
+	case 2:
+		m := vIntIn(name+".m", 0, L)
+		vAssume(vAnd(s < m, m < e))
+		return gts.Join(gts.Range(s, m), gts.Range(m, e)) // reduces to one range; kept as the abutting-parts case
+	case 3:
+		return gts.Order(gts.Point(s), gts.Range(s, e))
+	default:
+		return gts.Between(e)
+	}
+}
+
+var vPipeConcrete bool
+
+func vPipeRecord(name string, L int, shape int) (GenBank, []byte) {
+	data := vBytesIn(name+".r", L, 'a', 'z')
+	if vPipeConcrete {
+		data = []byte("acgtnacgtn")[:L] // Complement maps every residue through a table: symbolic residues fork 26-fold per byte
+	}
+	var ff gts.FeatureSlice
+	sp := gts.Props{}
+	sp.Add("mol_type", "x")
+	if L > 0 {
+		ff = ff.Insert(gts.Feature{Key: "source", Loc: gts.Range(0, L), Props: sp})
+		gp := gts.Props{}
+		gp.Add("gene", name)
+		ff = ff.Insert(gts.Feature{Key: "gene", Loc: vPipeLoc(name+".f", L, shape), Props: gp})
+	}
+	gb := GenBank{
+		Fields: GenBankFields{LocusName: "X", Molecule: gts.DNA, Topology: gts.Linear, Division: "UNK",
+			Date: Date{2000, 1, 1}, Definition: "d", Accession: "A", Version: "A.1",
+			Source:     Organism{"s", "o", []string{"t"}},
+			References: []Reference{{Number: 1, Info: "(bases 1 to " + string(rune('0'+L)) + ")", Authors: "a"}},
+		},
+		Table:  ff,
+		Origin: NewOrigin(data),
+	}
+	return gb, data
+}
+
+// vWriteGenBank writes any sequence through the real GenBank writer.
+func vWriteGenBank(seq gts.Sequence) (string, error, bool) {
+	buf := &bytes.Buffer{}
+	var err error
+	p := vPanics(func() { _, err = NewWriter(buf, GenBankFile).WriteSeq(seq) })
+	return buf.String(), err, p
+}
+
+//verif:harness prop=C01 quick=9 thorough=45 merge=concrete timeout=1500
+//verif:bounds records reached by ONE edit operation (insert | embed | delete | erase | slice incl. wrap-around and empty windows | rotate | reverse | complement | concat) from a record of 5 symbolic residues with a source and one gene (quick: partial range with symbolic coordinates and flags; thorough: also complemented range, abutting join, order, between-site), every operation argument symbolic (residues symbolic except under complement); then write -> read -> write
+func VH_C01_pipeline() {
+	sh := vShard(9 + 36*vTier())
+	op, shape := sh%9, sh/9
+	const L = 5
+	vPipeConcrete = op == 7
+	gb, _ := vPipeRecord("h", L, shape)
+	var out gts.Sequence
+	i := vIntIn("i", 0, L)
+	n := vIntIn("n", 0, L)
+	switch op {
+	case 0, 1:
+		guest, _ := vPipeRecord("g", 2, 0)
+		if op == 0 {
+			out = gts.Insert(gb, i, guest)
+		} else {
+			out = gts.Embed(gb, i, guest)
+		}
+	case 2:
+		vAssume(i+n <= L)
+		out = gts.Delete(gb, i, n)
+	case 3:
+		vAssume(i+n <= L)
+		out = gts.Erase(gb, i, n)
+	case 4:
+		out = gts.Slice(gb, i, n) // any window, wrap-around when n < i, empty when n == i
+	case 5:
+		out = gts.Rotate(gb, i-n)
+	case 6:
+		out = gts.Reverse(gb)
+	case 7:
+		out = gts.Complement(gb)
+	default:
+		other, _ := vPipeRecord("g", 2, 0)
+		out = gts.Concat(gb, other)
+	}
+	text, err, p := vWriteGenBank(out)
+	vAssert("write-no-panic", !p)
+	if p {
+		return
+	}
+	vAssert("write-ok", err == nil)
+	if err != nil {
+		return
+	}
+	vCover("written")
+	recs, seqs, rerr := vScanAll([]byte(text), 2)
+	vAssert("reader-accepts-own-output", vAnd(rerr == nil, recs == 1))
+	if rerr != nil || recs != 1 {
+		return
+	}
+	back, ok := seqs[0].(GenBank)
+	vAssert("is-genbank", ok)
+	if !ok {
+		return
+	}
+	vAssert("same-residues", vSameBytes(back.Bytes(), out.Bytes()))
+	vAssert("same-features", vSameFeatures(back.Table, out.Features()))
+	text2, err2, p2 := vWriteGenBank(back)
+	vAssert("rewrite-no-panic", !p2)
+	if p2 || err2 != nil {
+		return
+	}
+	vAssert("write-read-write-fixed-point", text2 == text)
+	vObserve("len", len(text))
+}
+
+//verif:harness prop=C01 quick=2 thorough=4 merge=concrete timeout=1500
+//verif:bounds multi-record framing: a stream of 2 (quick) / 2..3 (thorough) records written back to back (5, 0 (after deleting everything) and 3 residues; each with its own symbolic residues and feature coordinates) reads back as the same records in order, each equal to its single-record reading
+func VH_C01_stream() {
+	sh := vShard(2 + 2*vTier())
+	lens := [][]int{{5, 3}, {3, 5}, {5, 0, 3}, {0, 5, 0}}[sh]
+	buf := &bytes.Buffer{}
+	w := NewWriter(buf, GenBankFile)
+	var single []string
+	var in []gts.Sequence
+	for k, L := range lens {
+		var seq gts.Sequence
+		if L == 0 {
+			gb, _ := vPipeRecord("r"+string(rune('0'+k)), 2, 0)
+			seq = gts.Delete(gb, 0, 2) // an empty record as the edit operations produce it
+		} else {
+			gb, _ := vPipeRecord("r"+string(rune('0'+k)), L, 0)
+			seq = gb
+		}
+		in = append(in, seq)
+		t, err, p := vWriteGenBank(seq)
+		vAssert("write-ok", vAnd(!p, err == nil))
+		single = append(single, t)
+		_, err = w.WriteSeq(seq)
+		vAssert("write-ok", err == nil)
+	}
+	vCover("written")
+	text := buf.String()
+	all := ""
+	for _, t := range single {
+		all += t
+	}
+	vAssert("stream-is-concatenation-of-records", text == all)
+	recs, seqs, err := vScanAll([]byte(text), len(lens)+1)
+	vAssert("reader-accepts-stream", vAnd(err == nil, recs == len(lens)))
+	if err != nil || recs != len(lens) {
+		return
+	}
+	for k := range lens {
+		vAssert("same-residues", vSameBytes(seqs[k].Bytes(), in[k].Bytes()))
+		vAssert("same-features", vSameFeatures(seqs[k].Features(), in[k].Features()))
+		t, werr, p := vWriteGenBank(seqs[k])
+		vAssert("rewrite-ok", vAnd(!p, werr == nil))
+		vAssert("framed-independently", t == single[k])
+	}
+	vObserve("len", len(text))
+}
